@@ -282,6 +282,33 @@ func (d *badgerNodeDB) cleanMultipartLocked(removeNodes bool) error {
 
 	metaTx := d.db.NewTransactionAt(tsMetadata, true)
 	defer metaTx.Discard()
+	if removeNodes {
+		// The roots whose root record has been removed above (or by an earlier clean-up that was
+		// interrupted) must not be reported as present anymore.
+		rootsMeta, err := loadRootsMetadata(metaTx, version)
+		if err != nil {
+			return err
+		}
+		readTx := d.db.NewTransactionAt(versionToTs(version), false)
+		defer readTx.Discard()
+
+		var rootsChanged bool
+		for rootHash := range rootsMeta.Roots {
+			switch _, err = readTx.Get(rootNodeKeyFmt.Encode(&rootHash)); {
+			case err == nil:
+			case errors.Is(err, badger.ErrKeyNotFound):
+				delete(rootsMeta.Roots, rootHash)
+				rootsChanged = true
+			default:
+				return fmt.Errorf("mkvs/badger: failed to check root record: %w", err)
+			}
+		}
+		if rootsChanged {
+			if err = rootsMeta.save(metaTx); err != nil {
+				return fmt.Errorf("mkvs/badger: failed to save roots metadata: %w", err)
+			}
+		}
+	}
 	if err := d.meta.setMultipartVersion(metaTx, 0); err != nil {
 		return err
 	}
